@@ -651,6 +651,7 @@ func (e *Env) GenerateAll(vs []Variant, par int) ([]*GenResult, error) {
 }
 
 var rePkgHeader = regexp.MustCompile(`(?m)^# (ws/\S+)`)
+var reFileLine = regexp.MustCompile(`^(\S+)/[^/\s]+\.go:\d+`)
 
 // Build compiles every generated package; packages that fail are recorded (Compile) and left out of the
 // driver, which is then linked from the remaining ones.
@@ -685,7 +686,25 @@ func (e *Env) Build(res []*GenResult) (driver string, err error) {
 		// attribute error blocks to packages
 		idx := rePkgHeader.FindAllStringSubmatchIndex(out, -1)
 		if len(idx) == 0 {
-			return "", fmt.Errorf("go build failed without package attribution:\n%s", out)
+			// errors found while loading packages (an import that does not exist ...) come without a "# pkg"
+			// header: attribute every line to the package of the file it names
+			attributed := false
+			for _, line := range strings.Split(out, "\n") {
+				m := reFileLine.FindStringSubmatch(line)
+				if m == nil {
+					continue
+				}
+				pkg := "ws/" + m[1]
+				for _, r := range withCode {
+					if pkg == r.TargetImport || pkg == r.StructImport {
+						r.Compile += line + "\n"
+						attributed = true
+					}
+				}
+			}
+			if !attributed {
+				return "", fmt.Errorf("go build failed without package attribution:\n%s", out)
+			}
 		}
 		for i, m := range idx {
 			pkg := out[m[2]:m[3]]
